@@ -50,7 +50,7 @@ def run_case(rng, idx, tier, lane, ctx):
         e = rng.choice(spec["events"])
         rng.choice(e["trans"])[3] = "0.5"
     theta = GE.param_values(rng, spec)
-    x0 = GE.initial_state(rng, spec, lo=1, hi=25, boundary_prob=0.1)
+    x0 = GE.initial_state(rng, spec, lo=1, hi=25, boundary_prob=0.1, huge_prob=0.15)
     ref = RefModel(spec)
     names = spec["states"] + spec["params"] + ["t"]
     cls = G.classes(spec)
